@@ -212,7 +212,8 @@ func (r *AvPacket2RtmpRemuxer) FeedAvPacket(pkt base.AvPacket) {
 						//	}
 						//}
 						payload[0] = base.RtmpAvcKeyFrame
-					} else {
+					} else if payload[0] != base.RtmpAvcKeyFrame {
+						// 注意，一帧中可能有多个nal，只要其中有关键帧的nal，整帧就是关键帧，不能被后面的nal（比如filler data）覆盖
 						payload[0] = base.RtmpAvcInterFrame
 					}
 					payload[1] = base.RtmpAvcPacketTypeNalu
@@ -261,7 +262,7 @@ func (r *AvPacket2RtmpRemuxer) FeedAvPacket(pkt base.AvPacket) {
 						//	}
 						//}
 						payload[0] = base.RtmpHevcKeyFrame
-					} else {
+					} else if payload[0] != base.RtmpHevcKeyFrame {
 						payload[0] = base.RtmpHevcInterFrame
 					}
 					payload[1] = base.RtmpHevcPacketTypeNalu
